@@ -291,6 +291,11 @@ func c10Specs() []built {
 			{Op: "AllowStyles", Names: []string{"color"}, Enum: []string{"blue"}, Scope: "on", On: []string{"p"}},
 			{Op: "AllowStyles", Names: []string{"color"}, Re: `^(green)$`, Scope: "on", On: []string{"p"}},
 		}},
+		// a value pattern that lets backslashes, quotes and upper case through (what is written back must still be what
+		// was judged)
+		spec.Spec{Name: "c10-re-permissive", Base: "new", Calls: []C{els("p", "span"), {Op: "AllowElementsMatching", Re: reMy},
+			{Op: "AllowStyles", Names: []string{"color", "font-family"}, Re: `^[a-zA-Z0-9\\ ,'"#-]*$`, Scope: "global"},
+			{Op: "AllowStyles", Names: []string{"width"}, Re: `^[A-Za-z0-9\\ ]+$`, Scope: "on", On: []string{"p"}}}},
 		// enum entries and property names spelled with upper-case letters by the caller
 		spec.Spec{Name: "c10-enum-mixed-case", Base: "new", Calls: []C{els("p", "span"), {Op: "AllowElementsMatching", Re: reMy},
 			{Op: "AllowStyles", Names: []string{"Color", "FONT-family"}, Enum: []string{"Red", "GREEN", "Arial"}, Scope: "global"},
